@@ -7,12 +7,14 @@
 package world
 
 import (
+	"bytes"
 	crand "crypto/rand"
 	"encoding/binary"
 	"fmt"
 	"io"
 	"log/slog"
 	"os"
+	"runtime"
 	"runtime/debug"
 	"sync"
 	"testing"
@@ -197,3 +199,18 @@ func (r *CounterReader) Read(p []byte) (int, error) {
 }
 
 func registerProxy() { timebase.RegisterClock(proxy{}) }
+
+// BubbleGoroutines returns the number of goroutines of the current synctest
+// bubble (the caller included), read from the runtime's own goroutine dump.
+func BubbleGoroutines() int {
+	buf := make([]byte, 1<<16)
+	for {
+		n := runtime.Stack(buf, true)
+		if n < len(buf) {
+			buf = buf[:n]
+			break
+		}
+		buf = make([]byte, 2*len(buf))
+	}
+	return bytes.Count(buf, []byte("synctest bubble "))
+}
